@@ -49,7 +49,11 @@ func (s *sys) fail(clause, f string, a ...any) {
 	s.viol = append(s.viol, vrt.Violation{Clause: clause, Detail: fmt.Sprintf(f, a...)})
 }
 
-func newSys() *sys {
+func newSys() *sys { return newSysWF("c01") }
+
+// newSysWF: c01 = hooks before/after every transition; c01h = additionally a critical call at negative and
+// positive weights of every moment (used by the request search, which fails them on demand)
+func newSysWF(wf string) *sys {
 	s := &sys{lastState: "PENDING"}
 	m := coresim.NewMaster(agents()...)
 	m.Behaviour = func(t *coresim.SimTask, kind string) coresim.Outcome {
@@ -59,7 +63,7 @@ func newSys() *sys {
 		return coresim.OK
 	}
 	s.w = coresim.NewWorld(m)
-	id, _, err := s.w.Create("c01", nil)
+	id, _, err := s.w.Create(wf, nil)
 	if err != nil {
 		return nil // the environment could not be created on this schedule (see C06 known finding): trivial execution
 	}
@@ -253,7 +257,7 @@ func execHistory(hist []int) (key string, applicable bool, viol []vrt.Violation)
 	coresim.ResetStore()
 	var s *sys
 	x := vrt.RunControlled(cfg, func() {
-		s = newSys()
+		s = newSysWF("c01h")
 		if s == nil {
 			panic("setup failed on the default schedule")
 		}
@@ -471,6 +475,7 @@ func main() {
 		calls = append(calls, callRole("b-"+ev, "before_"+ev), callRole("a-"+ev, "after_"+ev))
 	}
 	calls = append(calls, callRole("destroy-hook", "DESTROY"))
+	plain := append([]string{}, calls...)
 	// critical calls at negative and positive weights of every moment of every transition (failed on demand)
 	seenTrig := map[string]bool{}
 	for _, ev := range []string{"CONFIGURE", "START_ACTIVITY", "STOP_ACTIVITY", "RESET"} {
@@ -482,8 +487,10 @@ func main() {
 			}
 		}
 	}
-	coresim.GlobalSetup(coresim.WorkflowSpec{Name: "c01", Hosts: []string{"hostA"}, Calls: calls,
-		Tasks: []coresim.TaskSpec{{Name: "t1", Class: "c01t1", Mode: "direct", Critical: true, Host: "hostA"}}})
+	coresim.GlobalSetup(coresim.WorkflowSpec{Name: "c01", Hosts: []string{"hostA"}, Calls: plain,
+		Tasks: []coresim.TaskSpec{{Name: "t1", Class: "c01t1", Mode: "direct", Critical: true, Host: "hostA"}}},
+		coresim.WorkflowSpec{Name: "c01h", Hosts: []string{"hostA"}, Calls: calls,
+			Tasks: []coresim.TaskSpec{{Name: "t1", Class: "c01t1", Mode: "direct", Critical: true, Host: "hostA"}}})
 	scs := []*vrt.Scenario{{
 		Name: "requests-bfs", Prop: "C01", Doc: "BFS over control/destroy request histories",
 		Direct: func(r *vrt.DirectReport, tier string) {
